@@ -33,6 +33,21 @@ def source_literals(model) -> list:
     return sorted(out)
 
 
+def member_names(model) -> list:
+    """Method and field names of the package's own classes (legal variable names that could shadow or be
+    shadowed by a member when coordinates are stored on an object)."""
+    import ast
+    import re
+    out = set()
+    for ci in model.classes.values():
+        for name, fi in ci.methods.items():
+            out.add(name)
+            for node in ast.walk(fi.node):
+                if isinstance(node, ast.Attribute) and isinstance(node.value, ast.Name) and node.value.id in ("self", "other"):
+                    out.add(node.attr)
+    return sorted(s for s in out if re.fullmatch(r"\w+", s) and not (s.startswith("__") and s.endswith("__")))
+
+
 def coord_case(args):
     kind, tree, coords, extra = args
     model = load_model()
@@ -154,6 +169,9 @@ def check(rep):
             for var in (vs[:1] + ["not_there"]):
                 cases.append(("route", t, {**full, "extra1": 7}, (route, var), "no-CoordinateMissing"))
     literals = [s for s in source_literals(model) if s not in LEGAL_NAMES]
+    members = [s for s in member_names(model) if s not in LEGAL_NAMES and s not in literals]
+    rep.extra["names_taken_from_class_members"] = len(members)
+    literals = literals + members
     rep.extra["names_taken_from_string_literals_in_the_source"] = literals
     for nm in LEGAL_NAMES + literals:
         cases.append(("name", None, None, nm, "usable"))
